@@ -191,6 +191,7 @@ def run_proc(cmd, wall=3600, stack_mb=1024, stdin=None):
 
 
 _DIED = re.compile(r"^(DIED|TIMEOUT|MONITOR-FATAL) case=(-?\d+)", re.M)
+_BEGIN = re.compile(r"^(BEGIN) case=(-?\d+)", re.M)
 _FRAME = re.compile(r"^\s*#(\d+)\s+(?:0x[0-9a-f]+\s+)?(?:in\s+)?(.*?)(?:\s+(/[^\s:]+|\S+\.[ch]pp|\S+\.h)(?::(\d+))?(?::\d+)?)?\s*$")
 
 COMPONENT_PREFIXES = ("TemplateCore", "Template::", "JSONParser", "JSON::", "JSONUtils", "Digit::", "Digit<",
@@ -380,6 +381,10 @@ def run_chunk(binary, cfgname, seed, lo, hi, extra, workdir, tag, cpu, triage_bu
         m = None
         for m in _DIED.finditer(err):
             pass
+        if m is None:
+            # tools without an on-report hook (TSan): the harness announced each case before running it
+            for m in _BEGIN.finditer(err):
+                pass
         if wall_to:
             res.inconclusive.append("%s: wall-clock watchdog at chunk %d..%d" % (cfgname, cur, hi))
             res.unexplored += hi - cur
